@@ -16,10 +16,13 @@ type authImpl struct {
 	calls *int
 }
 
-func (a authImpl) DoErr(ctx context.Context) error          { *a.calls++; return nil }
-func (a authImpl) DoVal(ctx context.Context) (int, error)   { *a.calls++; return 7, nil }
-func (a authImpl) FailErr(ctx context.Context) error        { *a.calls++; return fmt.Errorf("impl-fail") }
-func (a authImpl) FailVal(ctx context.Context) (int, error) { *a.calls++; return 9, fmt.Errorf("impl-fail") }
+func (a authImpl) DoErr(ctx context.Context) error        { *a.calls++; return nil }
+func (a authImpl) DoVal(ctx context.Context) (int, error) { *a.calls++; return 7, nil }
+func (a authImpl) FailErr(ctx context.Context) error      { *a.calls++; return fmt.Errorf("impl-fail") }
+func (a authImpl) FailVal(ctx context.Context) (int, error) {
+	*a.calls++
+	return 9, fmt.Errorf("impl-fail")
+}
 
 type proxyRead struct {
 	DoErr   func(context.Context) error        `perm:"read"`
@@ -67,16 +70,16 @@ func subsets() [][]auth.Permission {
 }
 
 type authProxyCase struct {
-	Kind     string   `json:"kind"`
+	Kind     string    `json:"kind"`
 	Attached *[]string `json:"attached"` // nil = nothing attached
-	Dflt     []string `json:"dflt"`
-	Required string   `json:"required"`
-	Method   string   `json:"method"` // DoErr DoVal FailErr FailVal
-	Invoked  int      `json:"invoked"`
-	ErrNil   bool     `json:"err_nil"`
-	ErrText  string   `json:"err_text"`
-	Val      int      `json:"val"`
-	Oracle   string   `json:"oracle_fail,omitempty"`
+	Dflt     []string  `json:"dflt"`
+	Required string    `json:"required"`
+	Method   string    `json:"method"` // DoErr DoVal FailErr FailVal
+	Invoked  int       `json:"invoked"`
+	ErrNil   bool      `json:"err_nil"`
+	ErrText  string    `json:"err_text"`
+	Val      int       `json:"val"`
+	Oracle   string    `json:"oracle_fail,omitempty"`
 }
 
 func strs(ps []auth.Permission) []string {
